@@ -85,6 +85,11 @@ def iter_bound(start, stop, eps, tol):
 
 
 # ------------------------------------------------------------------ generators
+def _opp(x, y):
+    """opposite signs, without forming a product (which underflows for tiny ordinates)"""
+    return (x < 0 < y) or (y < 0 < x)
+
+
 def _functions(rng):
     """(name, f) — smooth, discontinuous, flat and step functions with a sign change."""
     r = rng.uniform(-3, 3)
@@ -99,12 +104,18 @@ def _functions(rng):
         ("flatstep", lambda x: -sc if x <= r else sc * (x - r) ** 9 + 1e-12),
         ("sqrtlike", lambda x: sc * math.copysign(abs(x - r) ** 0.5, x - r)),
         ("jumpy", lambda x: sc * ((x - r) + (0.5 if math.floor(7 * x) % 2 else -0.5) * 0.01 + (1 if x > r else -1))),
+        # ordinates whose products underflow in binary64 (the sign test must compare signs, not a product)
+        ("tinyjumpL", lambda x: 1.0 if x > r else -1e-170 * (2.0 + abs(x))),
+        ("tinyjumpR", lambda x: -1.0 if x <= r else 1e-170 * (2.0 + abs(x))),
+        ("tinyboth", lambda x: 1e-165 * (1.0 + abs(x)) if x > r else -1e-165 * (2.0 + abs(x))),
+        ("highpoly", lambda x: (x - r) ** (10 * k + 1)),
+        ("flatleft", lambda x: (x - r) if x > r else -((r - x) ** 3) * 1e-165),
     ]
 
 
 def gen_case(rng, i):
     """One correspondence case: bracket, eps, tol and an ordinate source."""
-    mode = rng.choice(["func", "func", "tape", "tape_signs", "solver", "reject", "posbound"])
+    mode = rng.choice(["func", "func", "tape", "tape_signs", "tape_tiny", "solver", "reject", "posbound"])
     if mode == "posbound":
         return gen_posbound(rng)
     eps = rng.choice([1e-6, 1.0, 1e-3, 0.25, 1e-9])
@@ -132,7 +143,7 @@ def gen_case(rng, i):
             start = rng.uniform(-6, 6)
             stop = start + 10 ** rng.uniform(-3, 1.2)
             try:
-                if f(start) * f(stop) < 0:
+                if _opp(f(start), f(stop)):
                     return dict(mode=mode, start=start, stop=stop, eps=eps, tol=tol, f=f, fname=name)
             except OverflowError:
                 pass
@@ -145,6 +156,12 @@ def gen_case(rng, i):
     n = rng.randint(1, 60)
     if mode == "tape":
         tape = [rng.choice([-1.0, 1.0]) * 10 ** rng.uniform(-12, 12) for _ in range(n)]
+    elif mode == "tape_tiny":
+        # magnitudes down to the subnormal range: products of two ordinates underflow to +-0.0
+        if rng.random() < 0.5:
+            fs, fe = -sgn * 10 ** rng.uniform(-300, -150), sgn * 10 ** rng.uniform(-300, -150)
+        tape = [rng.choice([-1.0, 1.0]) * 10 ** rng.choice([rng.uniform(-320, -150), rng.uniform(-320, -150), rng.uniform(-3, 3)])
+                for _ in range(n)]
     else:
         # few distinct magnitudes, many ties, occasional exact zero
         mags = [10 ** rng.uniform(-3, 3) for _ in range(3)] + [1.0]
@@ -500,7 +517,7 @@ def oracle(case, status, xs, ys, fin):
     a, b, fa, fb, _ = fin
     if not (lo <= a <= hi and lo <= b <= hi):
         return f"bracket end outside the initial interval: a={a!r} b={b!r}"
-    if fa * fb > 0:
+    if (fa > 0 and fb > 0) or (fa < 0 and fb < 0):
         return f"sign change lost: f(a)={fa!r} f(b)={fb!r}"
     if status == "1" and not abs(b - a) < case["tol"]:
         return "reported converged with |b-a| >= tol"
@@ -644,7 +661,7 @@ def search(rep: Report, seed: int, n: int) -> None:
             for y in cands:
                 r2 = copy.copy(rf)
                 r2.provide_ordinate(x, y)
-                if r2.fa * r2.fb > 0:
+                if (r2.fa > 0 and r2.fb > 0) or (r2.fa < 0 and r2.fb < 0):
                     case["tape"].append(y)
                     st, xs, ys, fin = run_impl(case)
                     rep.fail(f"sign change lost after ordinate {y!r}", _ser(case, xs, ys))
